@@ -6,10 +6,11 @@ from pathlib import Path
 HERE = Path(__file__).resolve().parent
 PY = "/venv/bin/python /verif/check.py"
 
-HYGIENE = (" On every function these rules pass through (and its callees) five exact Python-semantics lints run as rule H"
+HYGIENE = (" On every function these rules pass through (and its callees) eight exact Python-semantics lints run as rule H"
            " (sa/hygiene.py, DESIGN §8.2c): no state kept in a mutable default argument, no single-pass iterator consumed twice or inside"
            " a loop (also across a call), no stored closure over a loop variable, no regex flag in a count/maxsplit position, no"
-           " comprehension clause reading a name bound by a later clause.")
+           " comprehension clause reading a name bound by a later clause, no table entries glued by a missing comma, no enum alias, no"
+           " click option whose kind disagrees with the annotated parameter it fills.")
 
 # property -> (technique, level text, level note, design ref)
 CHECKS: dict[str, tuple[str, str, str, str]] = {
@@ -32,7 +33,7 @@ CHECKS: dict[str, tuple[str, str, str, str]] = {
         " prunes/yields accordingly, that every call chain enumerating files forwards the include flags, the"
         " VCS strategy and the subset unchanged, and that VCS readers' flags and separators agree. Necessary"
         " structural conditions decided for all paths/names; Git's own ignore answer is an external run-time"
-        " oracle and is not decided. VCS membership tests (is_ignored / is_submodule of every strategy) compare paths of the same base (units-of-measure check: query made root-relative, collected sets root-relative); the report's file list is subset_files(F) whenever F was given, even empty. Paths printed by VCS commands keep their exact spelling (no whitespace strip).",
+        " oracle and is not decided. VCS membership tests (is_ignored / is_submodule of every strategy) compare paths of the same base (units-of-measure check: query made root-relative, collected sets root-relative); the report's file list is subset_files(F) whenever F was given, even empty. Paths printed by VCS commands keep their exact spelling (no whitespace strip, no lossy decode). The argv of git's ignored-files query equals the confirmed flag set, and VCS commands inherit the caller's environment (env= must extend os.environ).",
         "Trusted: CPython ast, re._parser, sa/relang.py, sa/tab.py, sa/fold.py. Names exclude '/', NUL, CR, LF.",
         "DESIGN.md §3 C03",
     ),
@@ -55,7 +56,7 @@ CHECKS: dict[str, tuple[str, str, str, str]] = {
         " version, line splitting, paragraph order - including a lint that nothing sorts, reverses, slices or re-assigns the"
         " table list between its construction and the dump, since both formats let the last match win), and - for every legal dep5 glob over {a / * ? \\} up to length"
         " 5 (quick) / 7 (thorough) and paths of any length - equality of the DEP5 glob language with the language"
-        " of the converted glob under the extracted REUSE.toml matcher. Equality of whole lint reports is not decided. On the exceptional path where the write of REUSE.toml fails nothing is removed. Inherits C05 (the matcher that interprets the converted globs).",
+        " of the converted glob under the extracted REUSE.toml matcher. Equality of whole lint reports is not decided. The converter writes the accessor of paragraph.license that the dep5 reader parses (sibling agreement), and every reader calls the shared expression parser with the same options. On the exceptional path where the write of REUSE.toml fails nothing is removed. Inherits C05 (the matcher that interprets the converted globs).",
         "Trusted: ast, re._parser, stdlib re applied to the two folded converter constants, DEP5's documented glob"
         " semantics for python-debian, sa/transducer.py, sa/relang.py. Known findings are recognised by equality"
         " with a frozen defect model.",
@@ -112,7 +113,7 @@ CHECKS: dict[str, tuple[str, str, str, str]] = {
         " Project.license_map into it and compares with `bad iff neither SPDX nor LicenseRef-` over all cells, the"
         " used/unused comprehensions as boolean formulas, the LICENSES/** scan table (skip, no-extension, stem fallback,"
         " duplicate, register), the LicenseRef- language (DFA equivalence, identifiers of any length), and absence of"
-        " case folding on the lint path. license_expression's license_keys (library) is not decided. LICENSES/ entries: bad iff not in the licence map, deprecated iff the map marks it - independent of any other attribute of the entry. The whole file name is looked up before the part in front of the last dot (Python-2.0.1 is an identifier without extension, not Python-2.0 with extension .1). Inherits C02, C03, C04 (which identifiers are used at all).",
+        " case folding on the lint path. license_expression's license_keys (library) is not decided. LICENSES/ entries: bad iff not in the licence map, deprecated iff the map marks it - independent of any other attribute of the entry. The expression parser is built without a symbol table (known symbols would be matched case-insensitively). The whole file name is looked up before the part in front of the last dot (Python-2.0.1 is an identifier without extension, not Python-2.0 with extension .1). Inherits C02, C03, C04 (which identifiers are used at all).",
         "Trusted: ast, sa/tab.py, sa/relang.py, sa/fold.py. Deprecated/bad classification of LICENSES/ entries is in C01-R3.",
         "DESIGN.md §3 C06",
     ),
@@ -135,7 +136,7 @@ CHECKS: dict[str, tuple[str, str, str, str]] = {
         " wrapping and the LicenseRef section; that the checksum is hashlib.sha1 over every chunk of the file opened"
         " in binary mode and is never disabled by the spdx command; that SPDXID derives from name and checksum; the"
         " LicenseConcluded table (NOASSERTION / NONE / AND of parenthesised expressions, simplified) and the creator"
-        " requirement. SHA-1 values and boolean.py's simplify() are library semantics and not decided. The covered-file set (ignore-name languages and the is_path_ignored table) is shared with C03. Inherits C02, C03 and C04 (and C05 through C04).",
+        " requirement. SHA-1 values and boolean.py's simplify() are library semantics and not decided. The declared type of --output provides what the body calls on it (click.File lazy=True for every value, `-` included). The covered-file set (ignore-name languages and the is_path_ignored table) is shared with C03. Inherits C02, C03 and C04 (and C05 through C04).",
         "Trusted: ast, sa/tab.py. The file set is decided by C01/C03.",
         "DESIGN.md §3 C18",
     ),
@@ -169,7 +170,7 @@ CHECKS: dict[str, tuple[str, str, str, str]] = {
         " keyword arguments of template.render ⊆ variables of the default template, with equal tag literals on both"
         " sides; unchanged forwarding of every option along the five-function annotate chain (rename table); the"
         " .license-target and comment-style decision tables; sanity of the folded style tables (29 classes, 261+64"
-        " map entries). That rendering plus commenting round-trips every value is run-time behaviour and not decided. Every jinja2 Environment is constructed without autoescape / finalize / extensions (values are written verbatim). The multi-line writer refuses every text containing the style's terminator and no style overrides the writer methods or their helper predicates. The header finder's predicate sees one comment at a time, never the ignore markers of the whole file (R10, recorded finding); a header redirected to a new .license sibling hides what the file itself declares (R11, recorded finding, shared with C09). Inherits C02 (tag reading) and C20 (notice building).",
+        " map entries). That rendering plus commenting round-trips every value is run-time behaviour and not decided. Every jinja2 Environment is constructed without autoescape / finalize / extensions (values are written verbatim). The multi-line writer refuses every text containing the style's terminator (whose table entry carries no blanks) and no style overrides the writer methods or their helper predicates. The header finder's predicate sees one comment at a time, never the ignore markers of the whole file (R10, recorded finding); a header redirected to a new .license sibling hides what the file itself declares (R11, recorded finding, shared with C09). Inherits C02 (tag reading) and C20 (notice building).",
         "Trusted: ast, sa/tab.py, sa/fold.py, Jinja2's parser (no rendering).",
         "DESIGN.md §3 C07",
     ),
@@ -215,7 +216,7 @@ CHECKS: dict[str, tuple[str, str, str, str]] = {
         " lie within what click turns into a diagnostic; each other pair is a violation unless it is one of nine named,"
         " reasoned infeasible origins whose side conditions are checked. Plus: parsed TOML values are type-checked"
         " before being iterated/indexed, the per-file isolation handler is as broad as Exception, parse errors carry"
-        " or receive the file name. OS faults outside the modelled exceptions are not decided. Bytes are decoded with an error mode whose result can be encoded again (no surrogateescape / surrogatepass). str.format is applied to constant format strings only; ordering values whose element type is Any counts as a TypeError source. Presence of a TOML key is decided by `is None`, never by truthiness; set() over raw converter parameters and constant indices into split text are exception sources (T2).",
+        " or receive the file name. OS faults outside the modelled exceptions are not decided. Bytes are decoded with an error mode whose result can be encoded again (no surrogateescape / surrogatepass). str.format is applied to constant format strings only, and a format spec only to str / int / float values (mypy type where not evident); ordering values whose element type is Any counts as a TypeError source. Presence of a TOML key is decided by `is None`, never by truthiness; set() over raw converter parameters and constant indices into split text are exception sources (T2).",
         "Trusted: ast, mypy's resolution and MROs, table T2. Known findings are keyed by exception and origin construct.",
         "DESIGN.md §3 C16",
     ),
@@ -241,7 +242,7 @@ CHECKS: dict[str, tuple[str, str, str, str]] = {
         " (_MultiprocessingContainer.__call__) is applied to an object the task created itself (freshness analysis with"
         " return summaries; two named exceptions for the lazy dep5 memo), so no state is carried from one file to the"
         " next. Listing order of output is deliberately not a sink. Independence of cwd and of"
-        " the spelling of --root depends on run-time path arithmetic and is not decided. Glob patterns built from run-time paths escape them; sorted() with a key that can tie over a set is an order hazard. VCS membership tests compare paths of the same base and VCS output keeps its spelling and is not decoded lossily (shared with C03). The report drivers do not mutate the Project they are handed (same freshness analysis). Inside the LICENSES/ scan every membership test on a container the scan itself fills is about keys the scan never adds, or one of three reads confirmed order-symmetric (R12).",
+        " the spelling of --root depends on run-time path arithmetic and is not decided. Glob patterns built from run-time paths escape them; sorted() with a key that can tie over a set is an order hazard. VCS membership tests compare paths of the same base and VCS output keeps its spelling and is not decoded lossily (shared with C03). The report drivers do not mutate the Project they are handed (same freshness analysis). Both operands of a path-prefix comparison in the nested REUSE.toml lookup are spelled the same way - as given or normalised (R13). Inside the LICENSES/ scan every membership test on a container the scan itself fills is about keys the scan never adds, or one of three reads confirmed order-symmetric (R12).",
         "Trusted: ast, mypy types/callees, table T3 (sorted, list.sort, boolean.py simplify sorts operands).",
         "DESIGN.md §3 C14",
     ),
